@@ -39,7 +39,8 @@ class Diagram:
     """A concrete family of diagrams: component names, one declaration form per component, line-order style,
     noise; the drawn relation and the per-end reference form are supplied by `sel`."""
 
-    def __init__(self, names, decl, order: int, noise: bool, style: int):
+    def __init__(self, names, decl, order: int, noise: bool, style: int, eol: str = "\n"):
+        self.eol = eol  # line terminator of the file on disk ("\n" or "\r\n"); the parser reads in text mode
         self.names = list(names)
         self.decl = list(decl)  # index into DECL_FORMS per component
         self.order = order
@@ -105,14 +106,14 @@ class Diagram:
         return "\n".join(lines) + "\n", comps, drawn
 
     def as_json(self):
-        return {"names": self.names, "decl": self.decl, "order": self.order, "noise": self.noise, "style": self.style}
+        return {"names": self.names, "decl": self.decl, "order": self.order, "noise": self.noise, "style": self.style, "eol": self.eol}
 
     @staticmethod
     def from_json(d):
-        return Diagram(d["names"], d["decl"], d["order"], d["noise"], d["style"])
+        return Diagram(d["names"], d["decl"], d["order"], d["noise"], d["style"], d.get("eol", "\n"))
 
     def label(self) -> str:
-        return f"names={self.names} decl={[DECL_FORMS[d] for d in self.decl]} order={self.order} noise={self.noise} style={self.style}"
+        return f"names={self.names} decl={[DECL_FORMS[d] for d in self.decl]} order={self.order} noise={self.noise} style={self.style} eol={self.eol!r}"
 
 
 _SCRATCH = None
@@ -128,28 +129,22 @@ def _scratch() -> str:
     return _SCRATCH
 
 
-def parse_text(text: str, real_file: bool = False, decoy: bool = True):
-    """Real PumlParser().parse on the text; the file is served through an `open` stub in the parser module's
-    namespace (real_file=True: a real scratch file, unpatched code)."""
+def parse_text(text: str, real_file: bool = True, decoy: bool = True, eol: str = "\n"):
+    """Real PumlParser().parse on a real scratch file holding `text` with the given line terminator (unpatched
+    code, no stub).  One fixed path per process, rewritten for every diagram: a diagram edited in place must be
+    re-read; with decoy=True another diagram is parsed from the same path first."""
     from pathlib import Path
 
     import pytestarch.diagram_extension.diagram_parser as dp
 
-    if real_file:
-        # one fixed path per process, rewritten for every diagram: a diagram edited in place must be re-read
-        p = os.path.join(_scratch(), "d.puml")
-        if decoy:
-            with open(p, "w", encoding="utf-8") as f:
-                f.write("@startuml\n[decoy_x] --> [decoy_y]\n@enduml\n")
-            _run_parser(dp, Path(p))
+    p = os.path.join(_scratch(), "d.puml")
+    if decoy:
         with open(p, "w", encoding="utf-8") as f:
-            f.write(text)
-        return _run_parser(dp, Path(p))
-    dp.open = lambda *a, **k: io.StringIO(text)
-    try:
-        return _run_parser(dp, Path("/nonexistent/diagram.puml"))
-    finally:
-        del dp.open
+            f.write("@startuml\n[decoy_x] --> [decoy_y]\n@enduml\n")
+        _run_parser(dp, Path(p))
+    with open(p, "w", encoding="utf-8", newline="") as f:
+        f.write(text.replace("\n", eol))
+    return _run_parser(dp, Path(p))
 
 
 def _run_parser(dp, path):
@@ -163,7 +158,7 @@ def _run_parser(dp, path):
 
 def unify_outcome(dg: Diagram, sel, real_file=False):
     text, comps, drawn = dg.build(sel)
-    got = parse_text(text, real_file)
+    got = parse_text(text, decoy=real_file, eol=dg.eol)
     if got[0] != "PARSED":
         return ("MISMATCH", f"components {sorted(comps)} relation {sorted(drawn)}", str(got), text)
     if set(got[1]) != comps:
@@ -173,20 +168,57 @@ def unify_outcome(dg: Diagram, sel, real_file=False):
     return ("OK", len(drawn))
 
 
+def parser_keywords() -> list[str]:
+    """Words the parser's own source treats specially: every alphabetic token (>= 2 letters) of the short string
+    constants of pytestarch.diagram_extension.diagram_parser (markers such as 'component', 'as', ... whatever the
+    current source defines).  Component names and aliases that merely START with such a word are ordinary names."""
+    import ast
+    import inspect
+    import re
+
+    import pytestarch.diagram_extension.diagram_parser as dp
+
+    tree = ast.parse(inspect.getsource(dp))
+    doc = set()
+    for node in ast.walk(tree):
+        if isinstance(node, (ast.Module, ast.ClassDef, ast.FunctionDef, ast.AsyncFunctionDef)) and node.body and isinstance(node.body[0], ast.Expr) and isinstance(node.body[0].value, ast.Constant):
+            doc.add(id(node.body[0].value))
+    words: list[str] = []
+    for node in ast.walk(tree):
+        if isinstance(node, ast.Constant) and isinstance(node.value, str) and id(node) not in doc and len(node.value) <= 24:
+            for w in re.findall(r"[A-Za-z]{2,}", node.value):
+                w = w.lower()
+                if w not in words:
+                    words.append(w)
+    return words
+
+
+def keyword_diagrams(tier: str) -> list[Diagram]:
+    out = []
+    kws = parser_keywords()
+    kws = kws[: 10 if tier == "quick" else 24]
+    for n, kw in enumerate(kws):
+        for names in ([f"{kw}book", "util"], [f"{kw}s.store", "api"]):
+            for style in range(6):
+                for decl in ((6, 6), (1, 1), (0, 3), (4, 0)):
+                    out.append(Diagram(names, decl, (n + style) % 4, False, style, "\r\n" if (n + style) % 5 == 0 else "\n"))
+    return out
+
+
 def diagrams(tier: str) -> list[Diagram]:
     rnd = random.Random(runner.seed() + 6)
-    out = []
+    out = keyword_diagrams(tier)
     # two components: every pair of declaration forms, three name sets
     for ns in NAME_SETS.values():
         for d in itertools.product(range(len(DECL_FORMS)), repeat=2):
-            out.append(Diagram(ns[:2], d, rnd.randrange(4), rnd.random() < 0.5, rnd.randrange(6)))
+            out.append(Diagram(ns[:2], d, rnd.randrange(4), rnd.random() < 0.5, rnd.randrange(6), "\r\n" if len(out) % 3 == 0 else "\n"))
     # three components: seeded sample of declaration-form triples
     triples = list(itertools.product(range(len(DECL_FORMS)), repeat=3))
     rnd.shuffle(triples)
     k = 18 if tier == "quick" else len(triples)
     for n, d in enumerate(triples[:k]):
         ns = list(NAME_SETS.values())[n % 3]
-        out.append(Diagram(ns, d, n % 4, n % 2 == 0, n % 6))
+        out.append(Diagram(ns, d, n % 4, n % 2 == 0, n % 6, "\r\n" if n % 3 == 1 else "\n"))
     return out
 
 
@@ -264,7 +296,7 @@ def replay_detail(payload: dict):
     dg = Diagram.from_json(payload["diagram"])
     assign = {tuple(k): v for k, v in payload["assign"]}
     o = unify_outcome(dg, lambda k: assign.get(k, 0), real_file=True)
-    text = dg.build(lambda k: assign.get(k, 0))[0]
+    text = dg.build(lambda k: assign.get(k, 0))[0].replace("\n", dg.eol)
     ok = o[0] == "OK"
     return ok, f"diagram {text!r}: " + ("parsed as drawn" if ok else f"expected {o[1]}, parser returned {o[2]}"), {"outcome": [str(x) for x in o[:3]]}
 
@@ -284,12 +316,14 @@ def run(tier: str, only: str | None = None) -> int:
     rep.bounds = {
         "unify": "2 components: all 49 pairs of declaration forms x 3 name sets; 3 components: seeded sample of form triples; per ordered pair: arrow drawn, each end by alias or by name (symbolic); 6 arrow forms, bracketed / bare references, 4 line orders, noise outside the tags",
         "name_sets": NAME_SETS,
+        "keyword_names": "names <word>book / <word>s.store for every alphabetic word of the parser source's own short string constants: " + ", ".join(parser_keywords()),
+        "line_terminators": ["\\n", "\\r\\n"],
         "regex": c06re.BOUNDS,
     }
     rep.assumptions = [
-        "unify: the diagram file is served through an `open` stub in the parser module's namespace; every reported model is re-parsed from a real file",
+        "unify: every path writes the assembled diagram to a real scratch file (LF or CRLF line terminators) and runs the unpatched parser on it; no stub",
         "unify instances read every arrow bit when the text is assembled: exhaustive walk, degenerate; the 'for all names / lines' weight is carried by the regex obligations",
     ] + c06re.ASSUMPTIONS
-    rep.stubs = ["open (diagram_parser namespace)"]
+    rep.stubs = []
     runner.run_pool(work, items, rep, chunksize=1)
     return runner.finish(rep)
